@@ -166,6 +166,9 @@ def v_ac2d_fd(tier):
                     continue
                 p = dict(nvars=(8, 8), nu=2, eps=0.04, order=order, inexact_linear_ratio=ratio, lin_tol=ltol, newton_maxiter=50)
                 out.append((f'order={order},inexact_linear_ratio={ratio},lin_tol={ltol}', p))
+    # the exponent of the nonlinearity: odd values make u**(nu+1) even in u (sign handling of the reaction term)
+    for nu in (1,):  # nu = 3 makes the implicit systems at factor 0.1 ill-posed (the reference Newton does not converge either)
+        out.append((f'order=2,nu={nu}', dict(nvars=(8, 8), nu=nu, eps=0.04, order=2, inexact_linear_ratio=None, lin_tol=1e-10, newton_maxiter=50)))
     return out
 
 
